@@ -19,6 +19,7 @@ func monitor(rep *emit.Report, c *caseRun) {
 	// node's cache; whether it counts is decided under the polynomial that is live when the count is made)
 	contrib := map[[2]int64]map[int][]byte{}
 	prevOf := map[int64][]byte{}
+	prevsOfRound := map[int64]map[int64]bool{} // accepted partials: round -> previous signatures they were signed over
 	thr := w.Epochs[0].Thr
 	epoch := 0
 	pendingTarget := int64(-1)
@@ -49,6 +50,10 @@ func monitor(rep *emit.Report, c *caseRun) {
 			contrib[k][idx] = sig
 		}
 		prevOf[prev] = prevBytes
+		if prevsOfRound[round] == nil {
+			prevsOfRound[round] = map[int64]bool{}
+		}
+		prevsOfRound[round][prev] = true
 		valid := 0
 		for _, sg := range contrib[k] {
 			if w.Sch.ThresholdScheme.VerifyPartial(w.Epochs[epoch].PubPoly, w.Digest(uint64(round), prevBytes), sg) == nil {
@@ -201,7 +206,11 @@ func monitor(rep *emit.Report, c *caseRun) {
 				}
 			}
 			in["last_steps"] = tail
-			rep.Fail("C05-threshold-of-partials-but-no-beacon", fmt.Sprintf("valid partials of a threshold (%d) of distinct live members for round %d on top of the head reached the node but the round was not stored", thr, expectPut), in)
+			if len(prevsOfRound[expectPut]) > 1 {
+				// C03: partials signed for another previous signature never count -- nor get in the way
+				rep.Fail("C03-partial-for-another-previous-signature-interferes", fmt.Sprintf("round %d: a threshold (%d) of valid partials over the head's signature reached the node, yet no beacon: accepted partials over %d different previous signatures share one slot", expectPut, thr, len(prevsOfRound[expectPut])), in)
+			}
+						rep.Fail("C05-threshold-of-partials-but-no-beacon", fmt.Sprintf("valid partials of a threshold (%d) of distinct live members for round %d on top of the head reached the node but the round was not stored", thr, expectPut), in)
 			if epoch > 0 {
 				rep.Fail("C07-new-group-threshold-but-round-halted", fmt.Sprintf("after the transition, valid partials of a threshold (%d) of the NEW group for round %d reached the node but the round was not produced", thr, expectPut), in)
 			}
